@@ -30,6 +30,23 @@ Parts (``task['part']``):
     epsilons[i].  The rows of ``Database.mdcev_row_split`` (all rows / an explicit reversed range) given to
     ``forecast_bisection_one_draw`` must be the rows at those positions.
 
+    Budgets: a small one (corner solutions), a medium one and a *large* one (500; thorough also 4000): with a large
+    budget the non-monotonic variant reaches optima with a negative multiplier (every mu_k + eps_k < 0), the only
+    place where 'the budget is exhausted' is a binding equality and not merely an upper limit.  The library's
+    brute-force optimiser is itself a forecast: its answer must be non-negative, exhaust the budget (1e-6 relative,
+    SLSQP's accuracy), consume the outside good -- and must not be better than the bisection forecast.
+ t  requested tolerances: the keyword options ``tolerance_dual`` / ``tolerance_budget`` of
+    ``forecast_bisection_one_draw`` (keywords and positional) and of ``Mdcev.forecast`` over an alphabet of pairs
+    (one omitted, budget looser, dual looser, equal): the answer must be non-negative, satisfy the KKT structure and
+    be what the two tolerances allow -- either its budget gap is within ``tolerance_budget`` or it lies between the
+    reference demands at (optimal multiplier +- ``tolerance_dual``).
+ b  the brute-force routes: ``forecast_bruteforce_one_draw``, ``forecast(brute_force=True)`` (frame i, row j = the
+    one-draw brute-force answer of observation i, draw j), ``forecast_comparison_one_draw`` and ``validate_forecast``
+    with the library's log captured: the comparison must not raise, must not report a difference of the budget
+    constraint between two budget-exhausting forecasts, must not report a difference of the objective when the
+    reference objectives of the two answers agree to 1e-7 (nor stay silent when they differ by 1e-3) -- under the
+    natural labeling and under a labeling whose sorted order differs from the positions.
+
 The reference (class ``Ref``) never imports biogeme.
 """
 from __future__ import annotations
@@ -46,13 +63,23 @@ TECHNIQUE = ('bounded exhaustive enumeration of MDCEV consumer problems (variant
              'parameter set x row x budget x all 27 error draws) x an alphabet of integer labelings, executed on the '
              'real forecasting code and compared with a plain-Python reference solver / closed forms; exhaustive '
              'operation histories for the per-observation cache; an alphabet of data frames (row sequences x index '
-             'labels x the operation that produced them) for the pairing observation <-> row <-> draws')
+             'labels x the operation that produced them) for the pairing observation <-> row <-> draws; an alphabet of '
+             'requested (tolerance_dual, tolerance_budget) pairs x entry points; the brute-force routes (one draw, '
+             'forecast(brute_force=True), forecast_comparison_one_draw, validate_forecast with captured log) held to the '
+             'invariants of any forecast')
 RULE = ('one case per (problem, labeling) forecast, per (good, consumption, epsilon) / (good, dual, epsilon) piece '
         'comparison, per history step, per (data frame, observation, draw) of the data-frame sweep. A forecast case is non-trivial when the library returned a consumption vector '
         'that was compared with the reference optimum; corner solutions (some good at zero) are counted separately. '
         'distinct = distinct (part, configuration, parameter set, row, budget, draw, labeling | grid point | history | '
-        'data frame, observation, draw) keys.')
+        'data frame, observation, draw) keys; part t: one case per (problem, tolerance pair, calling style / entry '
+        'point); part b: one case per (problem, labeling, route).')
 ASSUMPTIONS = [
+    'the brute-force optimiser (scipy SLSQP) is only held to the invariants of any forecast (non-negative, budget '
+    'exhausted to 1e-6 relative, outside good consumed, not better than the bisection forecast); how close it gets to '
+    'the optimum is counted, not judged (it stops up to 3 % short on some problems)',
+    'a tolerance keyword that is omitted is taken as 1e-10 (the loosest default of the entry points); a requested pair '
+    'is met when the budget gap is within tolerance_budget or the answer lies between the reference demands at the '
+    'optimal multiplier +- tolerance_dual',
     'continuous domains are covered on finite grids only (8 value alphabets selected by VERIF_SEED, budgets, '
     '{-1,0,1}^3 draws, 3 goods); utilities are strictly concave (0 < alpha < 1, gamma > 0, prices > 0) so the optimum '
     'is unique and the reference solver (own closed forms + bisection, plain Python) defines it',
@@ -403,6 +430,8 @@ def close(a, b, rel, ab):
 
 # --------------------------------------------------------------------------- part f: forecasts
 X_ABS = 1e-7      # |x_lib - x_ref| <= X_ABS * max(1, budget)
+BIG_BUDGET = 500.0    # large budgets: negative multipliers in the non-monotonic variant, flat demand curves
+HUGE_BUDGET = 4000.0
 DIFF_ABS = 1e-9   # labeling differential
 BUDGET_TOL = 1e-6
 MU_REL = 1e-6
@@ -444,8 +473,18 @@ def check_forecast(ref, budget, eps, xs, xref, lamref):
     return bad
 
 
-def run_one_forecast(model, cfg, lab, row_db, budget, eps):
-    """eps per good -> library call -> consumption per good (list) or ('raised', text)."""
+def tol_kwargs(td, tb):
+    kw = {}
+    if td is not None:
+        kw['tolerance_dual'] = td
+    if tb is not None:
+        kw['tolerance_budget'] = tb
+    return kw
+
+
+def run_one_forecast(model, cfg, lab, row_db, budget, eps, tol=None):
+    """eps per good -> library call -> consumption per good (list) or ('raised', text).
+    tol = (tolerance_dual | None, tolerance_budget | None, 'kw' | 'pos'): the requested tolerances and how they are passed."""
     import numpy as np
 
     labels = lab['labels']
@@ -453,7 +492,13 @@ def run_one_forecast(model, cfg, lab, row_db, budget, eps):
     for k in range(3):
         vec[model.key_to_index[labels[k]]] = eps[k]
     try:
-        res = model.forecast_bisection_one_draw(one_row_of_database=row_db, total_budget=budget, epsilon=vec)
+        if tol is None:
+            res = model.forecast_bisection_one_draw(one_row_of_database=row_db, total_budget=budget, epsilon=vec)
+        elif tol[2] == 'pos':
+            res = model.forecast_bisection_one_draw(row_db, budget, vec, tol[0], tol[1])
+        else:
+            res = model.forecast_bisection_one_draw(one_row_of_database=row_db, total_budget=budget, epsilon=vec,
+                                                    **tol_kwargs(tol[0], tol[1]))
     except Exception as e:  # noqa: BLE001 - every exception on an in-domain problem is an observation
         return ('raised', type(e).__name__, str(e)[:200])
     if set(res) != set(labels):
@@ -475,6 +520,25 @@ def run_bruteforce(model, lab, row_db, budget, eps):
     if res is None:
         return None
     return [float(res[labels[k]]) for k in range(3)]
+
+
+BF_BUDGET_TOL = 1e-6   # relative; SLSQP's accuracy (measured on the unchanged library: <= 5e-12)
+BF_NEG_TOL = 1e-9
+
+
+def check_bruteforce(ref, budget, bf):
+    """The invariants of ANY forecast, for the answer of the brute-force optimiser: list of (clause, detail)."""
+    scale = max(1.0, budget)
+    bad = []
+    if any((not isinstance(v, float)) or math.isnan(v) for v in bf):
+        return [('brute-force-forecast-not-a-number', f'x={bf}')]
+    if any(v < -BF_NEG_TOL * scale for v in bf):
+        bad.append(('brute-force-negative-consumption', f'x={bf}'))
+    if abs(sum(bf) - budget) > BF_BUDGET_TOL * scale:
+        bad.append(('brute-force-budget-not-exhausted', f'sum x={sum(bf)!r} budget={budget} x={bf}'))
+    if ref.og is not None and not bf[ref.og] > 0:
+        bad.append(('brute-force-outside-good-not-consumed', f'x={bf}'))
+    return bad
 
 
 def fcase(cfg, pset, ri, budget, eps, lab):
@@ -570,6 +634,10 @@ def _part_f(task, rec):
                         if bf[1] == 'RuntimeError':
                             rec.retire = True
                     else:
+                        # the brute-force answer is a forecast too: non-negative, budget exhausted, outside good consumed
+                        for clause, detail in check_bruteforce(ref, budget, bf):
+                            fail(budget, eps, clause, cls, f'{where}: forecast_bruteforce_one_draw: {clause}: {detail}', case,
+                                 dict(sum=budget, reference_optimum=xref), dict(x=bf))
                         feasible = (abs(sum(bf) - budget) <= 1e-7 * scale and all(v >= -1e-9 for v in bf)
                                     and (ref.og is None or bf[ref.og] > 0))
                         if not feasible:
@@ -593,7 +661,7 @@ def _part_f(task, rec):
     for (budget, eps, clause), lst in fails.items():
         n = ran.get((budget, eps), 0) if clause.startswith('forecast-raises') else answered.get((budget, eps), 0)
         nb = n
-        everywhere = (len(lst) >= nb and nb > 1) or clause == 'worse-than-brute-force'
+        everywhere = (len(lst) >= nb and nb > 1) or clause == 'worse-than-brute-force' or clause.startswith('brute-force-')
         for cls, what, case, expected, observed in lst:
             c = force if force is not None else ('any' if everywhere else cls)
             rec.violation(vkey(clause, cfg, c), what, dict(case, cls=c), expected=expected, observed=observed)
@@ -916,6 +984,473 @@ def _part_d(task, rec):
         rec.violation(dkey(clause, c), what, dict(case, cls=c), expected=expected, observed=observed)
 
 
+# --------------------------------------------------------------------------- part t: requested tolerances
+# (tolerance_dual, tolerance_budget); None = the keyword is omitted (the entry point's default applies)
+DEFAULT_TOL = 1e-10   # loosest default of the entry points (forecast: 1e-10, one draw / validate_forecast: 1e-13)
+TOLS_QUICK = ((None, 1e-3), (1e-14, 1e-3), (1e-3, None), (1e-6, 1e-2), (1e-3, 1e-3))
+TOLS_MORE = ((1e-3, 1e-13), (1e-2, 1e-6), (1e-8, 1e-8), (None, 1e-1), (1e-1, None), (1e-5, 1e-4), (1e-12, 1.0))
+
+
+def tol_eff(t):
+    return DEFAULT_TOL if t is None else t
+
+
+def tol_class(td, tb):
+    a, b = tol_eff(td), tol_eff(tb)
+    return 'budget-looser' if b > a else ('dual-looser' if a > b else 'equal')
+
+
+def tol_name(td, tb):
+    return f"tolerance_dual={'omitted' if td is None else td!r}, tolerance_budget={'omitted' if tb is None else tb!r}"
+
+
+def check_forecast_tol(ref, budget, eps, xs, xref, lamref, td, tb):
+    """Oracle on one library answer obtained with requested tolerances.  The statement's clauses (non-negative, outside
+    good consumed, equal marginal utilities of the consumed goods, no larger marginal utility at zero) are kept; 'exhausts
+    the budget' and 'is the optimum' hold up to what was requested: either the budget gap is within tolerance_budget
+    (then, the demands being monotone in the multiplier, no good is further than that from the optimum) or the answer
+    lies between the reference demands at (optimal multiplier + tolerance_dual) and (optimal multiplier - tolerance_dual)."""
+    bad = []
+    scale = max(1.0, budget)
+    if any((not isinstance(v, float)) or math.isnan(v) for v in xs):
+        return [('forecast-not-a-number', f'x={xs}')]
+    if any(v < 0 for v in xs):
+        bad.append(('negative-consumption', f'x={xs}'))
+    if ref.og is not None and not xs[ref.og] > 0:
+        bad.append(('outside-good-not-consumed', f'x={xs}'))
+    if bad:
+        return bad
+    td_, tb_ = tol_eff(td), tol_eff(tb)
+    slack = X_ABS * scale
+    gap = abs(sum(xs) - budget)
+    by_budget = (gap <= tb_ * (1 + 1e-9) + 1e-12 * scale
+                 and all(abs(xs[k] - xref[k]) <= tb_ * (1 + 1e-9) + slack for k in range(3)))
+    by_dual = False
+    lo = hi = None
+    if not by_budget:
+        t = td_ * (1 + 1e-9) + 1e-15 * max(1.0, abs(lamref))
+        lo = ref.demand(lamref + t, eps)
+        hi = ref.demand(lamref - t, eps)     # inf for a good whose marginal utility never gets that low
+        by_dual = all(lo[k] - slack <= xs[k] <= hi[k] + slack for k in range(3))
+    if not (by_budget or by_dual):
+        bad.append(('requested-tolerances-not-met',
+                    f'x={xs} sum x={sum(xs)!r} budget={budget} (gap {gap:.3g}); optimum {xref} at multiplier {lamref!r}; '
+                    f'demands at multiplier+tolerance_dual {lo}, at multiplier-tolerance_dual {hi}'))
+    # KKT with the reference marginal utilities at the library's point
+    consumed = [k for k in range(3) if xs[k] > ZERO * scale]
+    mus = {k: ref.MU(k, xs[k], eps[k]) for k in consumed}
+    if consumed:
+        lam = sum(mus.values()) / len(mus)
+        w0 = [ref.MU(k, 0.0, eps[k]) for k in range(3) if ref.og != k]
+        mag = max([abs(lam)] + [abs(v) for v in mus.values()] + [abs(v) for v in w0 if math.isfinite(v)])
+        tol = MU_REL * mag
+        if any(abs(v - lam) > tol for v in mus.values()):
+            bad.append(('marginal-utilities-of-consumed-goods-differ', f'x={xs} MU={mus}'))
+        for k in range(3):
+            if k not in consumed and ref.og != k:
+                # the multiplier of the answer may be below the optimal one by what was requested
+                if ref.MU(k, 0.0, eps[k]) > max(lam, lamref) + 10 * tol:
+                    bad.append(('unconsumed-good-has-larger-marginal-utility',
+                                f'x={xs} MU0[{GOODS[k]}]={ref.MU(k, 0.0, eps[k])!r} lambda={lam!r} optimal lambda={lamref!r}'))
+    return bad
+
+
+def tkey(clause, cfg, tc):
+    return vkey(clause, cfg) + f'|tolerances:{tc}'
+
+
+def _part_t(task, rec):
+    import numpy as np
+
+    alph = alphabet(task.get('seed', _SEED))
+    cfg, pset, budget, lab = task['cfg'], task['pset'], task['budget'], task['lab']
+    rows = task['rows']
+    draws = [tuple(float(v) for v in e) for e in task['draws']]
+    db, one = make_rows(alph['rows'])
+    name = cfg_name(cfg)
+    labels = lab['labels']
+    model = build_model(cfg, lab, alph['psets']['D'])
+    set_params(model, alph, pset)
+    refs, sols = {}, {}
+    for ri in range(len(alph['rows'])):
+        refs[ri] = Ref(cfg, alph['psets'][pset], alph['rows'][ri])
+        for eps in draws:
+            try:
+                sols[(ri, eps)] = refs[ri].solve(budget, eps)
+            except (ArithmeticError, ValueError, ZeroDivisionError):
+                sols[(ri, eps)] = None
+                rec.count('skipped_reference_has_no_solution')
+    arr = np.zeros((len(draws), 3))
+    for d, eps in enumerate(draws):
+        for k in range(3):
+            arr[d, model.key_to_index[labels[k]]] = eps[k]
+    seen = set()   # one violation per (key, task); further witnesses are counted
+
+    def viol(clause, tc, what, case, expected, observed):
+        key = tkey(clause, cfg, tc)
+        if key in seen:
+            rec.count('further_witnesses_of_a_reported_key')
+            return
+        seen.add(key)
+        rec.violation(key, what, case, expected=expected, observed=observed)
+
+    for td, tb, style in [tuple(t) for t in task['tols']]:
+        tc = tol_class(td, tb)
+        tn = tol_name(td, tb)
+        rec.count('tolerance_class:' + tc)
+        ok_one = {}
+        for ri in rows:
+            for eps in draws:
+                sol = sols[(ri, eps)]
+                if sol is None:
+                    continue
+                xref, lamref = sol
+                case = dict(part='t', cfg=cfg, pset=pset, row=ri, budget=budget, eps=list(eps), lab=lab, tol=[td, tb, style],
+                            entry='one-draw', seed=_SEED)
+                where = (f'{name} params {pset} row {ri} budget {budget} eps(A,B,C)={list(eps)} labels {labels}: '
+                         f'forecast_bisection_one_draw({tn}) [{style}]')
+                ck = ('t', name, pset, ri, budget, eps, tuple(labels), lab['order'], td, tb, style)
+                out = run_one_forecast(model, cfg, lab, one[ri], budget, eps, tol=(td, tb, style))
+                if isinstance(out, tuple):
+                    rec.case(None, (ck, out), outcome=f"{cfg['variant']}|tol|raised:{out[1]}")
+                    viol('forecast-raises:' + out[1], tc, f'{where} raised {out[1]}: {out[2]}', case, dict(x=xref), f'{out[1]}: {out[2]}')
+                    if out[1] == 'RuntimeError':
+                        rec.retire = True
+                    ok_one[(ri, eps)] = False
+                    continue
+                bad = check_forecast_tol(refs[ri], budget, eps, out, xref, lamref, td, tb)
+                ok_one[(ri, eps)] = not bad
+                gap = abs(sum(out) - budget)
+                how = 'exact' if gap <= 1e-9 * max(1.0, budget) else ('within-budget-tolerance' if gap <= tol_eff(tb) * (1 + 1e-9) else 'within-dual-tolerance')
+                rec.case(ck, (ck, [round(v, 7) for v in out]), outcome=f"{cfg['variant']}|tol|{tc}|{'bad' if bad else how}")
+                for clause, detail in bad:
+                    viol(clause, tc, f'{where}: {clause}: {detail}', case, dict(x=xref, dual=lamref, tolerance_dual=td, tolerance_budget=tb), dict(x=out))
+        if not task.get('api') or style == 'pos':
+            continue
+        # the data-frame entry point forwards the two options
+        case = dict(part='t', cfg=cfg, pset=pset, budget=budget, lab=lab, tol=[td, tb, style], entry='forecast',
+                    draws=[list(e) for e in draws], rows=rows, seed=_SEED)
+        where = f'{name} params {pset} budget {budget} labels {labels}: Mdcev.forecast({tn})'
+        ck = ('t', name, pset, budget, tuple(labels), lab['order'], td, tb, 'api')
+        try:
+            frames = model.forecast(database=db, total_budget=budget, epsilons=[arr.copy() for _ in alph['rows']], **tol_kwargs(td, tb))
+        except Exception as e:  # noqa: BLE001
+            rec.case(None, (ck, 'raised', type(e).__name__), outcome=f"{cfg['variant']}|tol|api-raised:{type(e).__name__}")
+            viol('forecast-api-raises:' + type(e).__name__, tc, f'{where} raised {type(e).__name__}: {str(e)[:200]}', case, None,
+                 f'{type(e).__name__}: {str(e)[:200]}')
+            if isinstance(e, RuntimeError):
+                rec.retire = True
+            continue
+        if len(frames) != len(alph['rows']) or any(sorted(f.columns) != sorted(labels) or len(f) != len(draws) for f in frames):
+            rec.case(None, (ck, 'shape'), outcome='tol|api-shape')
+            viol('forecast-api-shape', tc, f'{where}: {len(frames)} frames of lengths {[len(f) for f in frames]}', case,
+                 dict(frames=len(alph['rows']), rows=len(draws)), [len(f) for f in frames])
+            continue
+        for ri, f in enumerate(frames):
+            for d, eps in enumerate(draws):
+                sol = sols[(ri, eps)]
+                if sol is None:
+                    continue
+                xref, lamref = sol
+                xs = [float(f[labels[k]].iloc[d]) for k in range(3)]
+                bad = check_forecast_tol(refs[ri], budget, eps, xs, xref, lamref, td, tb)
+                rec.case(ck + (ri, eps), (ck, ri, eps, [round(v, 7) for v in xs]), outcome=f"{cfg['variant']}|tol-api|{tc}|{'bad' if bad else 'ok'}")
+                for clause, detail in bad:
+                    if ok_one.get((ri, eps)) and clause == 'requested-tolerances-not-met':
+                        clause = 'forecast-api-does-not-honour-requested-tolerances'   # the one-draw call with the same options passes
+                    viol(clause, tc, f'{where} row {ri} draw #{d} {list(eps)}: {clause}: {detail}', dict(case, row=ri, draw=d),
+                         dict(x=xref, dual=lamref, tolerance_dual=td, tolerance_budget=tb), dict(x=xs))
+
+
+# --------------------------------------------------------------------------- part b: the brute-force routes
+class _LogCapture:
+    """Warnings of the library's logger during one call (the worker silences logging globally)."""
+
+    def __enter__(self):
+        import logging
+
+        self.msgs = []
+        outer = self
+
+        class H(logging.Handler):
+            def emit(self, record):
+                if record.levelno >= logging.WARNING:
+                    outer.msgs.append(str(record.getMessage()))
+
+        self._h = H(level=logging.WARNING)
+        self._lg = logging.getLogger('biogeme.mdcev.mdcev')
+        self._disabled = logging.root.manager.disable
+        logging.disable(logging.NOTSET)
+        self._lg.addHandler(self._h)
+        return self
+
+    def __exit__(self, *exc):
+        import logging
+
+        self._lg.removeHandler(self._h)
+        logging.disable(self._disabled)
+        return False
+
+
+def warn_kinds(msgs):
+    out = []
+    for m in msgs:
+        if m.startswith('Different optimal choice sets'):
+            out.append('choice-sets')
+        elif m.startswith('Difference between optimal utility'):
+            out.append('objective')
+        elif m.startswith('Difference between constraint'):
+            out.append('constraint')
+        elif m.startswith('Solution with'):
+            continue
+        elif 'failed' in m:
+            out.append('failed')
+        else:
+            out.append('other')
+    return out
+
+
+def b_draws(i, nd):
+    """Draws of observation i; observation 0 starts with (-1, -1, -1) (non-monotonic: every mu + eps < 0)."""
+    return [ALL_DRAWS[(13 * i + 7 * j) % 27] for j in range(nd)]
+
+
+def order_class(labels, index_to_key):
+    return 'sorted-order==position-order' if list(index_to_key) == sorted(labels) else 'sorted-order!=position-order'
+
+
+CMP_SAME = 1e-7    # reference objectives of the two answers agree to this: a reported difference does not exist
+CMP_DIFF = 1e-3    # ... differ by this: np.isclose (1e-5) cannot hold, the difference must be reported
+
+
+def comparison_symptoms(ref, budget, eps, bis, bf, kinds):
+    """What forecast_comparison_one_draw logged, against the two answers obtained directly.  -> list of (symptom, detail)."""
+    out = []
+    if bf is None or isinstance(bf, tuple) or isinstance(bis, tuple):
+        return out
+    scale = max(1.0, budget)
+    if check_bruteforce(ref, budget, bf) or abs(sum(bis) - budget) > BUDGET_TOL * scale or any(v < 0 for v in bis):
+        return out      # reported by its own clause
+    if 'constraint' in kinds and abs(sum(bis) - sum(bf)) <= 1e-7 * budget:
+        out.append(('reports-a-difference-of-the-budget-constraint-between-two-budget-exhausting-forecasts',
+                    f'sum bisection {sum(bis)!r} sum brute force {sum(bf)!r}'))
+    try:
+        ob = ref.objective([max(v, 0.0) for v in bf], eps)
+        ol = ref.objective(bis, eps)
+    except (ValueError, OverflowError, ZeroDivisionError):
+        return out
+    rel = abs(ob - ol) / max(1.0, abs(ob), abs(ol))
+    if 'objective' in kinds and rel <= CMP_SAME:
+        out.append(('reports-a-difference-of-the-objective-that-does-not-exist',
+                    f'objective of the bisection answer {ol!r}, of the brute-force answer {ob!r}'))
+    if 'objective' not in kinds and rel > CMP_DIFF:
+        out.append(('does-not-report-the-difference-of-the-objective',
+                    f'objective of the bisection answer {ol!r}, of the brute-force answer {ob!r}'))
+    return out
+
+
+def _part_b(task, rec):
+    import numpy as np
+
+    alph = alphabet(task.get('seed', _SEED))
+    cfg, pset, budget, nd = task['cfg'], task['pset'], task['budget'], task['ndraws']
+    labs = task['labs']
+    db, one = make_rows(alph['rows'])
+    name = cfg_name(cfg)
+    n = len(alph['rows'])
+    scale = max(1.0, budget)
+    refs = [Ref(cfg, alph['psets'][pset], alph['rows'][ri]) for ri in range(n)]
+    draws = [b_draws(i, nd) for i in range(n)]
+    sols = {}
+    for i in range(n):
+        for eps in draws[i]:
+            try:
+                sols[(i, eps)] = refs[i].solve(budget, eps)
+            except (ArithmeticError, ValueError, ZeroDivisionError):
+                sols[(i, eps)] = None
+    if any(v is None for v in sols.values()):
+        rec.count('skipped_reference_has_no_solution')
+        return
+    fails = []       # (li, clause, what, expected, observed)
+    cmp_fails = []   # (li, symptom, what, observed)
+    classes = []
+    base_case = dict(part='b', cfg=cfg, pset=pset, budget=budget, ndraws=nd, labs=labs, routes=task.get('routes', 'all'), seed=_SEED)
+    for li, lab in enumerate(labs):
+        labels = lab['labels']
+        model = build_model(cfg, lab, alph['psets']['D'])
+        set_params(model, alph, pset)
+        oc = order_class(labels, model.index_to_key)
+        classes.append(oc)
+        rec.count('comparison_labeling:' + oc)
+        ckb = ('b', name, pset, budget, tuple(labels), lab['order'], nd)
+
+        def vec(eps):
+            v = np.zeros(3)
+            for k in range(3):
+                v[model.key_to_index[labels[k]]] = eps[k]
+            return v
+
+        # (1) the two one-draw routes, directly
+        bis, bfs = {}, {}
+        for i in range(n):
+            for j, eps in enumerate(draws[i]):
+                xref, lamref = sols[(i, eps)]
+                where = f'{name} params {pset} row {i} budget {budget} eps(A,B,C)={list(eps)} labels {labels} [{lab["order"]}]'
+                out = run_one_forecast(model, cfg, lab, one[i], budget, eps)
+                bis[(i, j)] = out
+                if isinstance(out, tuple):
+                    rec.case(None, (ckb, 'bis', i, j, out), outcome=f"{cfg['variant']}|raised:{out[1]}")
+                    fails.append((li, 'forecast-raises:' + out[1], f'{where}: forecast_bisection_one_draw raised {out[1]}: {out[2]}', dict(x=xref), out[2]))
+                    if out[1] == 'RuntimeError':
+                        rec.retire = True
+                else:
+                    for clause, detail in check_forecast(refs[i], budget, eps, out, xref, lamref):
+                        fails.append((li, clause, f'{where}: {clause}: {detail}', dict(x=xref, dual=lamref), dict(x=out)))
+                bf = run_bruteforce(model, lab, one[i], budget, eps)
+                bfs[(i, j)] = bf
+                if bf is None:
+                    rec.count('bruteforce_returned_none')
+                    rec.case(None, (ckb, 'bf', i, j, None), outcome='bruteforce|none')
+                    continue
+                if isinstance(bf, tuple):
+                    rec.count('bruteforce_raised:' + bf[1])
+                    rec.case(None, (ckb, 'bf', i, j, bf), outcome='bruteforce|raised')
+                    if bf[1] == 'RuntimeError':
+                        rec.retire = True
+                    continue
+                bad = check_bruteforce(refs[i], budget, bf)
+                rec.case(ckb + ('bf', i, j), (ckb, i, j, [round(v, 6) for v in bf]),
+                         outcome=f"{cfg['variant']}|bruteforce|{'bad' if bad else 'feasible'}")
+                for clause, detail in bad:
+                    fails.append((li, clause, f'{where}: forecast_bruteforce_one_draw: {clause}: {detail}', dict(sum=budget, reference_optimum=xref), dict(x=bf)))
+                if not bad and not isinstance(out, tuple):
+                    try:
+                        ob = refs[i].objective([max(v, 0.0) for v in bf], eps)
+                        ol = refs[i].objective(out, eps)
+                    except (ValueError, OverflowError, ZeroDivisionError):
+                        rec.count('bruteforce_objective_undefined_skipped')
+                    else:
+                        rec.count('bruteforce_compared')
+                        if ol < ob - OBJ_TOL * max(1.0, abs(ob)):
+                            fails.append((li, 'worse-than-brute-force', f'{where}: objective {ol!r} at x={out} < brute force objective {ob!r} at {bf}', ob, ol))
+                        if ob < ol - 1e-4 * max(1.0, abs(ol)):
+                            rec.count('bruteforce_worse_than_forecast_by_1e-4')
+        routes = task.get('routes', 'all')
+        # (2) forecast(brute_force=True): frame i, row j is the brute-force answer of observation i, draw j
+        if routes == 'all' or li == len(labs) - 1:
+            eps_arrays = [np.array([vec(e) for e in draws[i]]) for i in range(n)]
+            try:
+                frames = model.forecast(database=db, total_budget=budget, epsilons=eps_arrays, brute_force=True)
+            except Exception as e:  # noqa: BLE001
+                rec.case(None, (ckb, 'api-bf', 'raised', type(e).__name__), outcome=f'bruteforce-api|raised:{type(e).__name__}')
+                fails.append((li, 'forecast-brute-force-api-raises:' + type(e).__name__,
+                              f'{name} params {pset} budget {budget} labels {labels}: forecast(brute_force=True) raised {type(e).__name__}: {str(e)[:200]}',
+                              None, f'{type(e).__name__}: {str(e)[:200]}'))
+                if isinstance(e, RuntimeError):
+                    rec.retire = True
+                frames = None
+            if frames is not None:
+                complete = all(isinstance(bfs[(i, j)], list) for i in range(n) for j in range(nd))
+                if not complete:
+                    rec.count('bruteforce_api_skipped_some_draw_failed')
+                elif len(frames) != n or any(sorted(f.columns) != sorted(labels) or len(f) != nd for f in frames):
+                    rec.case(None, (ckb, 'api-bf', 'shape'), outcome='bruteforce-api|shape')
+                    fails.append((li, 'forecast-brute-force-api-shape', f'{name} labels {labels}: forecast(brute_force=True) gives {len(frames)} frames of '
+                                  f'lengths {[len(f) for f in frames]}', dict(frames=n, rows=nd), [len(f) for f in frames]))
+                else:
+                    for i in range(n):
+                        for j, eps in enumerate(draws[i]):
+                            xs = [float(frames[i][labels[k]].iloc[j]) for k in range(3)]
+                            same = all(abs(xs[k] - bfs[(i, j)][k]) <= 1e-9 * scale for k in range(3))
+                            rec.case(ckb + ('api-bf', i, j), (ckb, i, j, [round(v, 6) for v in xs]),
+                                     outcome=f"{cfg['variant']}|bruteforce-api|{'same' if same else 'differs'}")
+                            if not same:
+                                fails.append((li, 'forecast-brute-force-api-is-not-the-one-draw-brute-force-answer',
+                                              f'{name} params {pset} budget {budget} labels {labels}: forecast(brute_force=True)[{i}] draw #{j} {list(eps)} '
+                                              f'gives x(A,B,C)={xs}, forecast_bruteforce_one_draw for that row and draw {bfs[(i, j)]}', bfs[(i, j)], xs))
+                            for clause, detail in check_bruteforce(refs[i], budget, xs):
+                                if same:
+                                    break   # already reported for the one-draw answer
+                                fails.append((li, clause, f'{name} params {pset} budget {budget} labels {labels}: forecast(brute_force=True)[{i}] draw #{j}: '
+                                              f'{clause}: {detail}', dict(sum=budget), dict(x=xs)))
+        # (3) the library's own comparison of the two routes, one draw at a time
+        kinds_direct = []
+        for i in range(n):
+            for j, eps in enumerate(draws[i]):
+                where = f'{name} params {pset} row {i} budget {budget} eps(A,B,C)={list(eps)} labels {labels} [{lab["order"]}] (positions {list(model.index_to_key)})'
+                with _LogCapture() as cap:
+                    try:
+                        ret = model.forecast_comparison_one_draw(one_row_of_database=one[i], total_budget=budget, epsilon=vec(eps))
+                        raised = None
+                    except Exception as e:  # noqa: BLE001
+                        raised = e
+                if raised is not None:
+                    rec.case(None, (ckb, 'cmp', i, j, type(raised).__name__), outcome=f'comparison|raised:{type(raised).__name__}')
+                    cmp_fails.append((li, 'raises:' + type(raised).__name__,
+                                      f'{where}: forecast_comparison_one_draw raised {type(raised).__name__}: {str(raised)[:200]}',
+                                      f'{type(raised).__name__}: {str(raised)[:200]}'))
+                    if isinstance(raised, RuntimeError):
+                        rec.retire = True
+                    kinds_direct.append(None)
+                    continue
+                kinds = warn_kinds(cap.msgs)
+                kinds_direct.append(sorted(set(kinds)))
+                sym = comparison_symptoms(refs[i], budget, eps, bis[(i, j)], bfs[(i, j)], kinds)
+                rec.case(ckb + ('cmp', i, j), (ckb, i, j, sorted(set(kinds))),
+                         outcome=f"comparison|{oc}|{'+'.join(sorted(set(kinds))) or 'silent'}|{'bad' if sym else 'ok'}")
+                for k in set(kinds):
+                    rec.count('comparison_warning:' + k)
+                for s, detail in sym:
+                    cmp_fails.append((li, s, f'{where}: forecast_comparison_one_draw {s}: {detail}; it logged {cap.msgs[:4]}', cap.msgs[:4]))
+        # (4) validate_forecast: the same comparisons over the table (observation i <-> row i <-> epsilons[i])
+        if routes == 'all' or li == len(labs) - 1:
+            with _LogCapture() as cap:
+                try:
+                    model.validate_forecast(database=db, total_budget=budget, epsilons=[np.array([vec(e) for e in draws[i]]) for i in range(n)])
+                    raised = None
+                except Exception as e:  # noqa: BLE001
+                    raised = e
+            if raised is not None:
+                rec.case(None, (ckb, 'validate', type(raised).__name__), outcome=f'validate_forecast|raised:{type(raised).__name__}')
+                if isinstance(raised, RuntimeError):
+                    rec.retire = True
+                if not any(k is None for k in kinds_direct):     # else: reported for the one-draw comparison
+                    cmp_fails.append((li, 'validate_forecast-raises:' + type(raised).__name__,
+                                      f'{name} params {pset} budget {budget} labels {labels}: validate_forecast raised {type(raised).__name__}: {str(raised)[:200]}',
+                                      f'{type(raised).__name__}: {str(raised)[:200]}'))
+            elif not any(k is None for k in kinds_direct):
+                got = sorted(k for k in warn_kinds(cap.msgs))
+                want = sorted(k for ks in kinds_direct for k in ks)
+                rec.case(ckb + ('validate',), (ckb, got), outcome=f"validate_forecast|{'same' if got == want else 'differs'}")
+                if got != want:
+                    cmp_fails.append((li, 'validate_forecast-reports-other-differences-than-the-one-draw-comparisons',
+                                      f'{name} params {pset} budget {budget} labels {labels}: validate_forecast logged {got}, the comparisons of its '
+                                      f'(row, draw) pairs one at a time {want}', got))
+    # keys: a forecast clause failing under every labeling of the task is not about labels
+    done = set()
+    for li, clause, what, expected, observed in fails:
+        everywhere = all(any(l2 == lj and c2 == clause for l2, c2, *_ in fails) for lj in range(len(labs)))
+        cls = 'any' if (everywhere or clause.startswith('brute-force-') or clause == 'worse-than-brute-force' or len(labs) == 1) else classes[li]
+        key = vkey(clause, cfg, task.get('force_cls') or cls)
+        if key in done:
+            rec.count('further_witnesses_of_a_reported_key')
+            continue
+        done.add(key)
+        rec.violation(key, what, dict(base_case, cls=cls), expected=expected, observed=observed)
+    # the comparison: symptoms seen only under a labeling whose sorted order differs from the positions are ONE finding
+    for li, sym, what, observed in cmp_fails:
+        natural_too = any(classes[l2] == 'sorted-order==position-order' for l2, *_ in cmp_fails)
+        if classes[li] == 'sorted-order!=position-order' and not natural_too:
+            key = 'C18|forecast-comparison-depends-on-labeling|labeling:sorted-order!=position-order'
+        else:
+            key = f'C18|forecast-comparison:{sym}|{cfg["variant"]}|labeling:' + ('any' if natural_too else classes[li])
+        if key in done:
+            rec.count('further_witnesses_of_a_reported_key')
+            continue
+        done.add(key)
+        rec.violation(key, what, dict(base_case, symptom=sym), expected='the comparison of the two answers, whatever the labels', observed=observed)
+
+
 # --------------------------------------------------------------------------- part p: pieces
 X_GRID =(0.0, 0.25, 1.0, 3.0, 10.0)
 E_GRID = (-1.0, 0.0, 1.0)
@@ -1211,35 +1746,98 @@ def tasks(tier, seed):
     if tier == 'quick':
         psets = ['D', 'B']
         budgets = [1.0, 10.0]
+        big = [BIG_BUDGET]
         p_labs = [labs[0], labs[4], labs[9]]
         h_depth = 3
-        api = [('D', 1.0, 0), ('B', 10.0, 3)]
+        api = [('D', 1.0, 0), ('B', 10.0, 3), ('B', BIG_BUDGET, 9)]
     else:
         psets = ['D', 'A', 'B']
         budgets = [0.125, 1.0, 10.0]
+        big = [BIG_BUDGET, HUGE_BUDGET]
         p_labs = quick_labs
         h_depth = 4
-        api = [(ps, b, li) for ps in psets for b in budgets for li in (0, 3, 8)]
+        api = [(ps, b, li) for ps in psets for b in budgets + big for li in (0, 3, 8)]
     # pieces first (simplest), then forecasts, the data-frame API, then histories
     for cfg in cfgs:
         for pset in psets:
             t.append(dict(part='p', cfg=cfg, pset=pset, rows=[0, 1], labs=p_labs, seed=seed))
     firsts = (-1.0, 0.0, 1.0)
     tails = [list(e) for e in itertools.product(firsts, repeat=2)]
-    for cfg in cfgs:
+    half = (0, 3, 4, 6, 9, 10)
+    for ci, cfg in enumerate(cfgs):
+        combo = 0
         for pset in psets:
             for ri in (0, 1):
                 for budget in budgets:
                     if tier == 'quick' and (pset, ri, budget) in (('D', 1, 1.0), ('B', 0, 10.0)):
                         continue  # quick: 6 of the 8 (parameter set, row, budget) combinations
+                    combo += 1
                     use = quick_labs
                     if tier == 'quick' and cfg['variant'] == 'translated' and cfg['og'] is not None:
                         # the library needs ~1070 bisection steps (50 ms) whenever only the outside good is consumed:
                         # quick keeps 6 of the 12 labelings for this configuration, thorough all of them
-                        use = [quick_labs[i] for i in (0, 3, 4, 6, 9, 10)]
-                    for e0 in firsts:
+                        use = [quick_labs[i] for i in half]
+                    if tier == 'quick' and (pset, ri, budget) in (('D', 1, 10.0), ('B', 1, 1.0)):
+                        use = [quick_labs[i] for i in half]   # quick: 6 of the 12 labelings on 2 of the 6 combinations
+                    for ei, e0 in enumerate(firsts):
+                        # quick: the brute-force optimiser on a rotating third of the chunks (thorough: all of them)
+                        bf = [0] if (tier != 'quick' or (ci + combo + ei) % 3 == 0) else []
                         t.append(dict(part='f', cfg=cfg, pset=pset, row=ri, labs=use, budgets=[budget],
-                                      draws=[[e0] + tl for tl in tails], seed=seed, bf_labs=[0]))
+                                      draws=[[e0] + tl for tl in tails], seed=seed, bf_labs=bf))
+    # large budgets (negative multipliers in the non-monotonic variant): quick one (parameter set, row) per
+    # configuration -- both for the non-monotonic variant -- under 2 labelings, the brute-force optimiser on the
+    # non-monotonic variant; thorough every parameter set and row under 4 labelings, brute force everywhere
+    for ci, cfg in enumerate(cfgs):
+        if tier == 'quick':
+            combos = [('D', 0), ('B', 1)]
+            if cfg['variant'] != 'nonmono':
+                combos = [combos[(ci + ci // 4) % 2]]
+            use = [quick_labs[0], quick_labs[9]]
+        else:
+            combos = [(ps, ri) for ps in psets for ri in (0, 1)]
+            use = [quick_labs[i] for i in (0, 6, 9, 10)]
+        for pset, ri in combos:
+            for budget in big:
+                for ei, e0 in enumerate(firsts):
+                    bf = [0] if (tier != 'quick' or cfg['variant'] == 'nonmono' or (ci + ei) % 3 == 0) else []
+                    t.append(dict(part='f', cfg=cfg, pset=pset, row=ri, labs=use, budgets=[budget],
+                                  draws=[[e0] + tl for tl in tails], seed=seed, bf_labs=bf))
+    # requested tolerances x entry points
+    for ci, cfg in enumerate(cfgs):
+        if tier == 'quick':
+            combos = [('D', 10.0, 0, 0), ('B', BIG_BUDGET, 1, 9)]
+            tols = [list(tl) + ['kw'] for tl in TOLS_QUICK] + [[1e-14, 1e-3, 'pos']]
+            for pi, (pset, budget, ri, li) in enumerate(combos):
+                # all 27 draws with the large budget, a rotating third with the medium one
+                for e0 in (firsts if budget == BIG_BUDGET else [firsts[(ci + pi) % 3]]):
+                    t.append(dict(part='t', cfg=cfg, pset=pset, budget=budget, rows=[ri], lab=labs[li], draws=[[e0] + tl for tl in tails],
+                                  tols=tols, api=True, seed=seed))
+        else:
+            combos = [('D', 10.0, 0), ('B', BIG_BUDGET, 9), ('A', 1.0, 3), ('D', HUGE_BUDGET, 6)]
+            for pset, budget, li in combos:
+                for e0 in firsts:
+                    t.append(dict(part='t', cfg=cfg, pset=pset, budget=budget, rows=[0, 1], lab=labs[li], draws=[[e0] + tl for tl in tails],
+                                  tols=[list(tl) + ['kw'] for tl in TOLS_QUICK] + [[1e-14, 1e-3, 'pos']], api=True, seed=seed))
+                t.append(dict(part='t', cfg=cfg, pset=pset, budget=budget, rows=[0, 1], lab=labs[li],
+                              draws=[[e0] + tails[(3 * ci + 4 * i) % 9] for i, e0 in enumerate(firsts * 3)],
+                              tols=[list(tl) + ['kw'] for tl in TOLS_MORE] + [[1e-3, 1e-13, 'pos']], api=True, seed=seed))
+    # the brute-force routes (one draw, forecast(brute_force=True), forecast_comparison_one_draw, validate_forecast)
+    for ci, cfg in enumerate(cfgs):
+        if tier == 'quick':
+            if cfg['prices'] != HAS_PRICES[cfg['variant']]:
+                continue
+            combos = [('D', 10.0), ('B', BIG_BUDGET)]
+            if cfg['variant'] != 'nonmono':
+                combos = [combos[(ci + ci // 4) % 2]]
+            for pset, budget in combos:
+                t.append(dict(part='b', cfg=cfg, pset=pset, budget=budget, ndraws=2, labs=[labs[0], labs[(8, 9)[ci % 2]]],
+                              routes='last', seed=seed))
+        else:
+            for pset in psets:
+                for budget in (1.0, 10.0, BIG_BUDGET):
+                    # natural labels, then labelings whose sorted order differs from the positions (8, 9, 11) or not (6)
+                    use = [labs[0], labs[6], labs[11]] if budget == 1.0 else [labs[0], labs[8], labs[9]]
+                    t.append(dict(part='b', cfg=cfg, pset=pset, budget=budget, ndraws=3, labs=use, routes='all', seed=seed))
     # thorough: the whole pool of labelings on the quick grid; every chunk starts with the natural labeling so
     # that the labeling differential always has the same anchor
     chunk = 15
@@ -1294,6 +1892,10 @@ def run_task(task):
         _part_h(task, rec)
     elif part == 'd':
         _part_d(task, rec)
+    elif part == 't':
+        _part_t(task, rec)
+    elif part == 'b':
+        _part_b(task, rec)
     return rec.result()
 
 
@@ -1320,6 +1922,17 @@ def replay(case):
             _part_p(task, rec, only='validation')
         else:
             _part_p(task, rec, only=(case['good'], case['kind'], case['point'], case['eps'], case['row']))
+    elif part == 't':
+        if case['entry'] == 'one-draw':
+            task = dict(part='t', cfg=case['cfg'], pset=case['pset'], budget=case['budget'], rows=[case['row']], lab=case['lab'],
+                        draws=[case['eps']], tols=[case['tol']], api=False, seed=seed)
+        else:
+            task = dict(part='t', cfg=case['cfg'], pset=case['pset'], budget=case['budget'], rows=case['rows'], lab=case['lab'],
+                        draws=case['draws'], tols=[case['tol']], api=True, seed=seed)
+        _part_t(task, rec)
+    elif part == 'b':
+        _part_b(dict(part='b', cfg=case['cfg'], pset=case['pset'], budget=case['budget'], ndraws=case['ndraws'], labs=case['labs'],
+                     routes=case.get('routes', 'all'), seed=seed), rec)
     elif part == 'h':
         alph = alphabet(seed)
         hist = [tuple(o) for o in case['history']]
